@@ -68,7 +68,12 @@ pub fn server_params(p: &Program) -> iwes::ServerParams {
 
 fn is_doc_notification(m: &Message) -> bool {
     match m {
-        Message::Notification(n) => n.method == "textDocument/didChange" || (n.method == "textDocument/didSave" && n.params.get("text").map(|t| t.is_string()).unwrap_or(false)),
+        // an edit notification is one that carries a text to apply; a didChange with an empty contentChanges
+        // array or a didSave without text changes nothing and cannot be "lost"
+        Message::Notification(n) => {
+            (n.method == "textDocument/didChange" && n.params.pointer("/contentChanges/0/text").map(|t| t.is_string()).unwrap_or(false))
+                || (n.method == "textDocument/didSave" && n.params.get("text").map(|t| t.is_string()).unwrap_or(false))
+        }
         _ => false,
     }
 }
@@ -998,7 +1003,18 @@ pub fn generate(seed: u64, thorough: bool, faults: bool) -> GenOut {
                     }
                 }
             }
-            _ => steps.push(Step::Request { method: "completionItem/resolve".into(), params: json!({"label": "x"}), fault: String::new(), id: None }),
+            _ => {
+                if work.chance(1, 2) {
+                    steps.push(Step::Request { method: "completionItem/resolve".into(), params: json!({"label": "x"}), fault: String::new(), id: None });
+                } else {
+                    // legal notifications that carry nothing to apply: they must not disturb later edits
+                    match work.below(3) {
+                        0 => steps.push(Step::Notify { method: "textDocument/didChange".into(), params: json!({"textDocument": {"uri": uri_str(&key), "version": 1}, "contentChanges": []}), class: "empty-content-changes".into() }),
+                        1 => steps.push(Step::Notify { method: "textDocument/didOpen".into(), params: json!({"textDocument": {"uri": uri_str(&key), "languageId": "markdown", "version": 1, "text": text}}), class: "did-open".into() }),
+                        _ => steps.push(Step::Notify { method: "textDocument/didClose".into(), params: json!({"textDocument": {"uri": uri_str(&key)}}), class: "did-close".into() }),
+                    }
+                }
+            }
         }
     }
     let program = Program { refs_ext, client_name, config, library, steps, final_probe: true };
